@@ -644,8 +644,15 @@ def c18(run):
         any_active = any(d["active"] for d in pre.values())
         if any_active and not s["gsc_before"] and n_calls == 0 and evs == 0 and not any(s["news"]):
             act = [d for d in pre.values() if d["active"]]
+            awake = [d for d in act if not (hib_on and d["hib"])]
+            collapsed = [d for d in awake if d["cls"] in ("DEDeme", "SHADEDeme", "UserDEDeme") and d.get("hist") and len({tuple(g) for g, _ in d["hist"][-1]}) == 1]
             if hib_on and all(d["hib"] for d in act):
                 out.append(V("C18/no-progress/all-active-demes-hibernating", f"metaepoch {s['n']}: 0 evaluations; every active deme {[d['id'] for d in act]} is hibernating"))
+            elif awake and len(collapsed) == len(awake):
+                # DE / SHADE keep the parent's fitness for a trial vector that equals its parent; once the
+                # whole population has collapsed to one point every donor a + F (b - c) is that point:
+                # no trial differs, nothing is evaluated, the deme stays active (finding D19)
+                out.append(V("C18/no-progress/de-population-collapsed-to-one-point", f"metaepoch {s['n']}: 0 evaluations; every awake active deme {[d['id'] for d in awake]} is a DE/SHADE deme whose population consists of one distinct genome"))
             else:
                 out.append(V("C18/no-progress", f"metaepoch {s['n']}: 0 evaluations although demes {[d['id'] for d in act if not d['hib']]} are active and awake"))
     return out
